@@ -92,7 +92,8 @@ def run(ctx):
                       found_input=True)
     if ran and summary.get("oracle_histories", 0) > 0 and (
             summary.get("oracle_steps_with_diagnostics", 0) == 0 or summary.get("oracle_steps_with_sierra_program", 0) == 0
-            or summary.get("oracle_distinct_outputs", 0) < 3):
+            or summary.get("oracle_distinct_outputs", 0) < 3
+            or min((summary.get("oracle_steps_with_2plus_diagnostics_of_phase") or {"x": 0}).values()) == 0):
         ctx.violation("oracle machinery is blind: the edits had no observable effect on diagnostics/Sierra",
                       {"summary": summary}, found_input=False)
     if corr_bad and not oracle_bad:
@@ -127,8 +128,13 @@ def run(ctx):
         "closed_assumption_blocks": (pr or {}).get("closed_blocks", 0),
         "evaluations": summary.get("oracle_steps", 0) + summary.get("ids_files", 0) + summary.get("reid_cases", 0),
         "distinct_nontrivial": summary.get("oracle_distinct_project_states", 0),
-        "rule": "oracle: histories are generated from VERIF_SEED over three projects (corpus/C13/multi: 4 files with "
-                "traits/generics/impls/consts/inline fn; corpus/C13/single; a copy of /repo/examples: 21 files). Each step "
+        "rule": "oracle: histories are generated from VERIF_SEED over four projects (corpus/C13/multi: 4 files with "
+                "traits/generics/impls/consts/inline fn; corpus/C13/single; a copy of /repo/examples: 21 files; "
+                "corpus/C13/diags: a project that carries >= 2 diagnostics of every phase - parser, semantic incl. inline "
+                "macros, lowering/borrow-check incl. inside loops/while/for/closures, warnings, plugin - whose histories "
+                "(2 of 5) mostly insert further diagnostic-carrying statements/items before and between the existing ones "
+                "(as expression statements and as `let` initialisers), duplicate, move and delete them; the full ordered "
+                "diagnostics text is compared). Each step "
                 "is one edit chosen with the real parser's landmarks: trivia (space/newline/comment/tab at a token "
                 "boundary), identifier rename (all occurrences across files, or a single one), statement/item insertion, "
                 "deletion, duplication, item move, syntax-breaking (delete a punctuation terminal, insert a stray token, "
